@@ -53,10 +53,52 @@ def _self_attr(e):
     return None
 
 
+def _is_instance_dict(e):
+    """`self.__dict__` / `vars(self)`"""
+    if isinstance(e, ast.Attribute) and e.attr == "__dict__" \
+            and dotted(e.value) == "self":
+        return True
+    return isinstance(e, ast.Call) and dotted(e.func) == "vars" \
+        and len(e.args) == 1 and dotted(e.args[0]) == "self"
+
+
+def _dict_attr(n):
+    """attribute name reached through the instance dictionary:
+    self.__dict__["k"], self.__dict__.setdefault / get / pop("k", ..),
+    setattr / getattr(self, "k")  ->  ("k", stores?, loads?)"""
+    if isinstance(n, ast.Subscript) and _is_instance_dict(n.value) \
+            and isinstance(n.slice, ast.Constant) \
+            and isinstance(n.slice.value, str):
+        st = isinstance(n.ctx, (ast.Store, ast.Del))
+        return n.slice.value, st, not st
+    if isinstance(n, ast.Call) and isinstance(n.func, ast.Attribute) \
+            and _is_instance_dict(n.func.value) and n.args \
+            and isinstance(n.args[0], ast.Constant) \
+            and isinstance(n.args[0].value, str):
+        if n.func.attr == "setdefault":
+            return n.args[0].value, True, True
+        if n.func.attr in ("get", "pop"):
+            return n.args[0].value, False, True
+    if isinstance(n, ast.Call) and dotted(n.func) == "setattr" \
+            and len(n.args) == 3 and dotted(n.args[0]) == "self" \
+            and isinstance(n.args[1], ast.Constant) \
+            and isinstance(n.args[1].value, str):
+        return n.args[1].value, True, False
+    if isinstance(n, ast.Compare) and len(n.ops) == 1 and isinstance(
+            n.ops[0], (ast.In, ast.NotIn)) and _is_instance_dict(
+            n.comparators[0]) and isinstance(n.left, ast.Constant) \
+            and isinstance(n.left.value, str):
+        return n.left.value, False, True
+    return None
+
+
 def _stores(fnode):
     """[(attr, node, whole?)] stores through self in a function."""
     out = []
     for n in ast.walk(fnode):
+        da = _dict_attr(n)
+        if da is not None and da[1]:
+            out.append((da[0], n, False))
         tgts = []
         if isinstance(n, ast.Assign):
             tgts = n.targets
@@ -82,6 +124,9 @@ def _stores(fnode):
 def _loads(fnode):
     out = set()
     for n in ast.walk(fnode):
+        da = _dict_attr(n)
+        if da is not None and da[2]:
+            out.add(da[0])
         if isinstance(n, ast.Attribute) and isinstance(n.ctx, ast.Load):
             a = _self_attr(n)
             if a is not None:
